@@ -88,6 +88,20 @@ def binding(run):
         del lines[i]
         return i + 1   # the next line now shows a world the recorded call cannot explain
 
+    def log_lies(lines):
+        i = first(lines, lambda l: l["ev"]["fn"] == "ESDTTransfer" and l["ev"]["res"] == "ok" and l["ev"]["logs"])
+        lines[i]["ev"]["logs"][0]["topics"][1]["q"] += 1
+        return i + 1
+
+    # the log model is specification coverage beyond the listed properties: a wrong log is reported as drift at its line
+    dst = os.path.join(run.dir, "log-lies.ndjson")
+    where = mutate_trace(base, dst, log_lies)
+    viols, done = run.validate(dst, preds, label="tv-log-lies")
+    hit = [d for l, d in done["drift_lines"] if l == where and "logs" in d]
+    print("selftest binding log-lies: line %d -> %s" % (where, "DRIFT logs" if hit else "NOT FLAGGED"))
+    if not hit:
+        bad.append("log-lies")
+
     for name, fn, expect in [("corrupt-balance", corrupt_balance, {"P01_Exact", "Conservation"}), ("flip-ok", flip_ok, {"P01_Exact"}),
                              ("gas-created", gas_created, {"P06_NoGasCreated"}), ("parser-lies", parser_lies, {"P10_ParserEqualsLedger"}),
                              ("drop-step", drop_step, {"Conservation", "P02_Others", "P05_Frame", "P01_Exact", "P01_FailKeeps"})]:
